@@ -786,13 +786,14 @@ Step(N, st) ==
             ELSE IF nd.el # 0 THEN [s1 EXCEPT !.kont = Append(K0, BlockItem(nd.el, it.env))]
             ELSE s1)
       [] it.w = "forprep" ->
+           \* init, limit and step are converted like arithmetic operands (luaV_tonumber in OP_FORPREP): numeric strings count
            (LET nd == N[it.s]  vs == Top(V)
-                a == vs[1]  b == vs[2]  c == IF nd.e3 = 0 THEN Num(1) ELSE vs[3]
+                a == ToNum(vs[1])  b == ToNum(vs[2])  c == IF nd.e3 = 0 THEN Num(1) ELSE ToNum(vs[3])
                 s1 == [s0 EXCEPT !.vals = Pop(V)] IN
             IF a[1] = "n" /\ b[1] = "n" /\ c[1] = "n"
             THEN (IF c[2] = 0 THEN Unmod(s1, "for step 0")
                   ELSE [s1 EXCEPT !.kont = Append(K0, [w |-> "fornum", s |-> it.s, cur |-> a[2], lim |-> b[2], step |-> c[2], env |-> it.env])])
-            ELSE IF \E x \in {a, b, c} : x[1] = "s" /\ StrToNum(x[2])[1] # "no" THEN Unmod(s1, "for bound is a numeric string")
+            ELSE IF \E x \in {a, b, c} : x[1] = "un" THEN Unmod(s1, "numeral")
             ELSE Fault(s1, nd.ln))
       [] it.w = "fornum" ->
            (IF (it.step > 0 /\ it.cur <= it.lim) \/ (it.step < 0 /\ it.cur >= it.lim)
